@@ -11,3 +11,5 @@ for ID in "$@"; do
   echo "== $NAME / $ID: exit $?"
 done
 git -C /repo checkout -- . ; git -C /repo status --short
+# rebuild the harness from the restored tree, so that no stale binary with the change is left behind
+(cd /verif/harness && CARGO_NET_OFFLINE=true cargo build --release --offline >/dev/null 2>&1)
